@@ -121,6 +121,17 @@ def mrf_case(rng, big):
 def mrf(ck):
     from nipy.algorithms.segmentation import _segmentation as S
     tabs = ngb_tables()
+    # independent statement of the two neighbourhood systems
+    cube = [(a, b, c) for a in (-1, 0, 1) for b in (-1, 0, 1) for c in (-1, 0, 1)]
+    want = {6: sorted(o for o in cube if abs(o[0]) + abs(o[1]) + abs(o[2]) == 1), 26: sorted(o for o in cube if o != (0, 0, 0))}
+    for sz in (6, 26):
+        ck.count(("ngb-table", sz), bucket="mrf:table")
+        if sorted(tabs[sz]) != want[sz]:
+            ck.fail("ngb-table/not-the-%d-neighbourhood" % sz,
+                    "mrf.c ngb%d is not the %d-neighbourhood: extra %s, missing %s, duplicates %s" % (
+                        sz, sz, sorted(set(tabs[sz]) - set(want[sz])), sorted(set(want[sz]) - set(tabs[sz])),
+                        sorted(set(o for o in tabs[sz] if tabs[sz].count(o) > 1))),
+                    {"table": tabs[sz]})
     rng = ck.rng("mrf")
     N = ck.n(90, 700)
     terms, meta = [], []
@@ -506,7 +517,7 @@ def gauss(ck):
     L2PI = float(np.log(2 * np.pi))
 
     # ---- likelihoods: two implementations, exact quadratic forms, scipy
-    N = ck.n(80, 800)
+    N = ck.n(48, 800)
     for ci in range(N):
         dim = 1 + ci % 4
         k = 1 + (ci // 4) % 6
@@ -528,6 +539,7 @@ def gauss(ck):
             P = g.precisions[c] if ptype == "full" else np.diag(g.precisions[c])
             cov = np.linalg.inv(P)
             logdet = float(np.log(eigvalsh(P)).sum()) if ptype == "full" else float(np.sum(np.log(g.precisions[c])))
+            mvn = st.multivariate_normal(mean=g.means[c], cov=cov, allow_singular=False)
             for i in range(n):
                 dxv = [F(int(a)) - F(int(b)) for a, b in zip(g.means[c], x[i])]
                 Pq = [[F(int(v)) for v in row] for row in P]
@@ -549,7 +561,7 @@ def gauss(ck):
                                 "%s[%d,%d] = %r but exp((-log(2pi)*dim + logdet - q)/2) with the exact q = %s gives %r" % (nm, i, c, float(lv), q, expect),
                                 dict(rep, comp=c, row=i))
                 # independent density
-                ref = float(st.multivariate_normal(mean=g.means[c], cov=cov, allow_singular=False).pdf(x[i]))
+                ref = float(mvn.pdf(x[i]))
                 if abs(l1[i, c] - ref) > 1e-9 * ref + 1e-300:
                     ck.fail("likelihood/not-the-gaussian-density", "unweighted_likelihood[%d,%d] = %r, N(mean, inv(P)) density = %r" % (i, c, float(l1[i, c]), ref),
                             dict(rep, comp=c, row=i))
@@ -557,7 +569,7 @@ def gauss(ck):
             ck.sample({"gmm": rep, "unweighted_likelihood": l1.tolist()})
 
     # ---- diag M-step: model vs implementation; equivariances on the implementation (diag and full)
-    N = ck.n(50, 400)
+    N = ck.n(36, 400)
     for ci in range(N):
         dim = 1 + ci % 4
         k = 1 + (ci // 4) % 6
@@ -594,7 +606,7 @@ def gauss(ck):
         g0, pri = fit(x, like)
         ck.count(("mstep", ptype, x.tobytes(), like.tobytes()), bucket="mstep:%s:%s%s" % (ptype, style, ":outlier" if outl else ""))
         rep = {"prec_type": ptype, "k": k, "dim": dim, "x": x.tolist(), "like": like.tolist()}
-        if ptype == "diag":
+        if ptype == "diag" and style != "model" and n * k * dim <= (72 if ck.thorough() else 48):   # (float likelihoods make the unreduced rationals of the model explode)
             pm, ps, pw, dof0, small = pri
             terms.append("let '(w, m, p) := mstep_diag %s %s %s %s %s %s %s %s %s %s in "
                          "qlist_close %s w %s && list_eqb (qlist_close %s) m %s && list_eqb (qlist_rel %s) p %s" % (
@@ -698,7 +710,7 @@ def gauss(ck):
 
     if ck.build is not None and ck.build.ok:
         hdr = HDR + "From Coq Require Import Qcanon.\nClose Scope Qc_scope.\n"
-        res = ck.coq_bools(hdr, terms, shard=200, name="gauss")
+        res = ck.coq_bools(hdr, terms, shard=40, name="gauss")
         ck.cov["traces_validated_against_impl"] += len(res)
         for ok, (kind, rep) in zip(res, meta):
             if not ok:
@@ -720,7 +732,8 @@ def run(ck):
     ck.trust.append("exp oracle values in the ve_step correspondence come from Python's math.exp on the exactly computed argument; "
                     "the C code calls libm exp on the floating-point argument (difference covered by the 1e-12 tolerance)")
     ck.coq_build()
-    ck.overlay()
+    # only the segmentation extension is needed (rebuilt from /repo's mrf.c); everything else C13 touches is pure Python
+    ck.overlay(modules=["nipy.algorithms.segmentation._segmentation"])
     import time
     for fn in (mrf, posteriors, gauss):
         t0 = time.time()
